@@ -282,11 +282,12 @@ Section ActsCrash.
     disk_inv w -> no_bad w -> undamaging o -> no_bad (fst (apply_op w o)).
   Proof.
     intros Hinv Hn Hu. pose proof Hn as [H1 H2].
-    destruct o as [p c | p | p x | t | | | | | t | v | t v | goal | goal];
+    destruct o as [p c | p | p x | p q | t | | | | | t | v | t v | goal | goal];
       cbn [Ops.apply_op fst]; unfold upd_rd; try (destruct Hu; fail).
     - eapply C11Proofs.no_bad_same_state_files; [| |exact Hn]; cbn [tick w_rd]; rewrite InvProofs.write_file_rd; reflexivity.
     - exact Hn.
     - eapply C11Proofs.no_bad_same_state_files; [| |exact Hn]; cbn [tick w_rd]; rewrite InvProofs.set_exec_rd; reflexivity.
+    - eapply C11Proofs.no_bad_same_state_files; [| |exact Hn]; cbn [tick w_rd]; rewrite InvProofs.move_file_rd; reflexivity.
     - apply no_bad_rd; [exact Hn | exact H1 | cbn; eauto].
     - apply no_bad_rd; [exact Hn | cbn; discriminate | cbn; intros hs' k E; discriminate].
     - apply no_bad_rd; [exact Hn | exact H1 | cbn; eauto].
